@@ -12,13 +12,32 @@
 (* the object is the library's choice (successor SET below); what it may   *)
 (* not do is report one key and verify against another, or name something  *)
 (* it was never given.                                                     *)
+(* Every public route that ends in a verdict is an ENTRY POINT of the same  *)
+(* machine (field `via` of a verify action):                               *)
+(*   method         sig.verify(digest, key)            - the object's own  *)
+(*   module-object  verify(digest, sig, key)           - the module-level  *)
+(*                  function handed the object                             *)
+(*   module-raw / module-der / module-hex / module-der-noht                *)
+(*                  verify(digest, <serialized signature>, key): 64 bytes, *)
+(*                  DER + hash type, the same as hex text, DER without the *)
+(*                  hash-type byte (refusing that one is permitted)        *)
+(* The verdict is ECDSA(digest in force, key NAMED BY THE CALL, else the   *)
+(* one the object reports) on every route; a serialized signature names    *)
+(* nothing, so both must be given, and such a call leaves the object alone.*)
 (* Keys and digests are indices 1, 2 (0 = none / omitted); (r, s) was made *)
 (* by key `signer` over digest 1, and fact[k][z] is the oracle fact         *)
 (* ECDSA(z, k, r, s) of the reference implementation.                      *)
 (***************************************************************************)
 EXTENDS Ecdsa
 
-ObjActs == [a : {"verify"}, z : 0..2, k : 0..2] \cup [a : {"setkey"}, z : {0}, k : 1..2] \cup [a : {"setdigest"}, z : 1..2, k : {0}]
+ObjectRoutes == {"method", "module-object"}
+SerializedRoutes == {"module-raw", "module-der", "module-hex", "module-der-noht"}
+Routes == ObjectRoutes \cup SerializedRoutes
+VerifyActs(R) == [a : {"verify"}, via : R, z : 0..2, k : 0..2]
+Setters == [a : {"setkey"}, via : {""}, z : {0}, k : 1..2] \cup [a : {"setdigest"}, via : {""}, z : 1..2, k : {0}]
+ObjActs == VerifyActs(Routes) \cup Setters
+\* actions that can change what the object names (the serialized routes cannot)
+StatefulActs(R) == VerifyActs(R \cap ObjectRoutes) \cup Setters
 \* how the object came to be: what it names at first, and who signed
 Constructions == {"sign", "rs", "parse-k1", "parse-k2", "init-k1-signed-by-k2"}
 InitObj(c) == CASE c = "sign" -> [key |-> 1, z |-> 1]                      \* sign(z1, k1) returns an object naming both
@@ -28,19 +47,25 @@ InitObj(c) == CASE c = "sign" -> [key |-> 1, z |-> 1]                      \* si
                 [] c = "init-k1-signed-by-k2" -> [key |-> 1, z |-> 1]        \* Signature(r, s, txid=z1, public_key=k1), (r, s) by k2
 SignerOf(c) == IF c = "init-k1-signed-by-k2" THEN 2 ELSE 1
 
-\* all call sequences of length 1..L that end with a verify call (what happens after the last verdict is not observed)
-ObjSeqs(L) == UNION { {q \in [1..l -> ObjActs] : q[l].a = "verify"} : l \in 1..L }
+\* all call sequences of length 1..L over the routes R: state-changing actions followed by one last verify call on any
+\* route of R (what happens after the last verdict is not observed; a serialized route changes nothing)
+ObjSeqs(L, R) == UNION { {q \in [1..l -> StatefulActs(R) \cup VerifyActs(R)] :
+                             q[l].a = "verify" /\ \A i \in 1..(l - 1) : q[i] \in StatefulActs(R)} : l \in 1..L }
 
 \* states the specification allows after an action (the named key / digest may or may not follow a verify argument)
 ObjSucc(st, act) ==
     CASE act.a = "setkey" -> {[st EXCEPT !.key = act.k]}
       [] act.a = "setdigest" -> {[st EXCEPT !.z = act.z]}
+      [] act.via \in SerializedRoutes -> {st}
       [] OTHER -> {[key |-> kk, z |-> zz] : kk \in {st.key} \cup ({act.k} \ {0}), zz \in {st.z} \cup ({act.z} \ {0})}
 \* verdict the specification expects of a verify call made in state st
 Expected(st, act, fact) ==
-    LET zf == IF act.z # 0 THEN act.z ELSE st.z
-        kf == IF act.k # 0 THEN act.k ELSE st.key
+    LET ser == act.via \in SerializedRoutes
+        zf == IF act.z # 0 \/ ser THEN act.z ELSE st.z
+        kf == IF act.k # 0 \/ ser THEN act.k ELSE st.key
     IN IF zf = 0 \/ kf = 0 THEN "reject" ELSE IF fact[kf][zf] THEN "accept" ELSE "reject"
+\* DER without the hash-type byte is outside the interface contract: refusing it is permitted, accepting only if ECDSA holds
+VerdictOk(st, act, fact, obs) == obs = Expected(st, act, fact) \/ (act.via = "module-der-noht" /\ obs = "reject")
 
 \* judge of a recorded sequence.  e = [a, z, k, pk, tz, obs]: pk / tz = the key / digest index the object reported just
 \* before the call (0 none, 3 = something it was never given), obs = "accept" | "reject" (verify calls; "" otherwise)
@@ -50,7 +75,7 @@ ObjRun(S, evs, i, fact, acc) ==
     ELSE LET e == evs[i]
              T == {s \in S : s.key = e.pk /\ s.z = e.tz}
          IN IF T = {} THEN Append(acc, <<Bad("object-reports-key-or-digest-it-should-not-name", "", <<>>)>>)
-            ELSE LET bad == e.a = "verify" /\ \E s \in T : Expected(s, e, fact) # e.obs
+            ELSE LET bad == e.a = "verify" /\ \E s \in T : ~VerdictOk(s, e, fact, e.obs)
                      exp == Expected(CHOOSE s \in T : TRUE, e, fact)
                  IN ObjRun(UNION {ObjSucc(s, e) : s \in T}, evs, i + 1, fact,
                            Append(acc, IF bad THEN <<Bad("verdict-differs-from-ecdsa-of-digest-and-key-in-force", "", <<exp>>)>> ELSE <<>>))
@@ -62,15 +87,20 @@ ObjBlamed(fs) == \E i \in 1..Len(fs) : fs[i] # <<>>
 \*   "sticks"   : arguments of verify() become the object's key / digest                      (conforming)
 \*   "restores" : a key that did not verify is dropped again, completely                      (conforming)
 \*   "stale"    : a key that did not verify is dropped from the report only, its point stays   (faulty)
+\*   "objkey-wins" : like "sticks", but on the module-object route the key the object carries wins over the key the
+\*                caller names                                                                (faulty)
 ImplInit(c) == [key |-> InitObj(c).key, z |-> InitObj(c).z, point |-> InitObj(c).key]
 ImplStep(impl, st, act, fact) ==      \* [st, ev]
-    LET ev0 == [a |-> act.a, z |-> act.z, k |-> act.k, pk |-> st.key, tz |-> st.z, obs |-> ""] IN
+    LET ev0 == [a |-> act.a, via |-> act.via, z |-> act.z, k |-> act.k, pk |-> st.key, tz |-> st.z, obs |-> ""] IN
     CASE act.a = "setkey" -> [st |-> [st EXCEPT !.key = act.k, !.point = act.k], ev |-> ev0]
       [] act.a = "setdigest" -> [st |-> [st EXCEPT !.z = act.z], ev |-> ev0]
+      [] act.via \in SerializedRoutes ->
+           [st |-> st, ev |-> [ev0 EXCEPT !.obs = IF act.z # 0 /\ act.k # 0 /\ fact[act.k][act.z] THEN "accept" ELSE "reject"]]
       [] OTHER ->
            LET zf == IF act.z # 0 THEN act.z ELSE st.z
-               kf == IF act.k # 0 THEN act.k ELSE st.key
-               pf == IF act.k # 0 THEN act.k ELSE st.point
+               named == IF impl = "objkey-wins" /\ act.via = "module-object" /\ st.key # 0 THEN 0 ELSE act.k
+               kf == IF named # 0 THEN named ELSE st.key
+               pf == IF named # 0 THEN named ELSE st.point
                ok == zf # 0 /\ kf # 0 /\ fact[pf][zf]
                keep == impl # "sticks" /\ ~ok
            IN [st |-> [key |-> IF keep THEN st.key ELSE kf, z |-> zf,
